@@ -143,6 +143,7 @@ pub fn check(c: &Case, seams_open: bool) -> CheckResult {
     }
     o.class_if(sharp && hw_dev >= 1.5, "join-visible");
     o.class_if(reversal, "reversal");
+    o.class_if(c.path.evenodd && sharp && hw_dev >= 1.5, "evenodd-path-with-visible-join");
     o.class_if(smax(&c.xf) >= 1000.0, "ctm-scale>=1000");
     o.class_if(exact_retrace && c.style.join == 1 && hw_dev >= 1.5, "exact-retrace-with-round-join");
     o.class_if(hw_dev >= 1.5 && c.style.cap != 0 && polys.iter().any(|p| !p.closed), "cap-visible");
@@ -262,7 +263,8 @@ pub fn stroke_path(ext: f32, allow_curves: bool) -> BoxedStrategy<PathSpec> {
             ops
         });
     let sub = if allow_curves { prop_oneof![1 => poly_sub.boxed(), 1 => curve_sub.boxed()].boxed() } else { poly_sub.boxed() };
-    prop::collection::vec(sub, 1..=3).prop_map(|subs| PathSpec { ops: subs.concat(), evenodd: false }).boxed()
+    // (the fill rule of the path that is stroked is irrelevant to its stroke; one path in three carries EvenOdd)
+    (prop::collection::vec(sub, 1..=3), prop::bool::weighted(0.33)).prop_map(|(subs, evenodd)| PathSpec { ops: subs.concat(), evenodd }).boxed()
 }
 
 fn stroke_xf(curves: bool) -> BoxedStrategy<Xf> {
@@ -374,7 +376,7 @@ pub fn wide_strategy() -> BoxedStrategy<Case> {
                 ops.push(POp::Z);
             }
             let s = smax(&xf) as f32;
-            Case { w, h, path: PathSpec { ops, evenodd: false }, style: StyleSpec { width: Fl(width / s), cap, join, miter: Fl(miter), dash: vec![], offset: Fl(0.0) }, xf }
+            Case { w, h, path: PathSpec { ops, evenodd: (width.to_bits() >> 2) % 3 == 0 }, style: StyleSpec { width: Fl(width / s), cap, join, miter: Fl(miter), dash: vec![], offset: Fl(0.0) }, xf }
         })
         .boxed()
 }
@@ -400,6 +402,7 @@ pub fn property(ctx: &Ctx) -> Property {
             ("region", "exact-retrace-with-round-join", 0.01),
             ("region", "xf:general", 0.1),
             ("region", "ctm-scale>=1000", 0.05),
+            ("region", "evenodd-path-with-visible-join", 0.03),
         ],
         panic_is_violation: false,
     }
